@@ -13,7 +13,7 @@ from __future__ import annotations
 from markupsafe import Markup
 
 BLOCK_IDS = {f"b{i}": i for i in range(1, 10)}
-VAR_IDS = {"i": 101, "k": 102, "loop.index": 103, "x": 111, "y": 112}
+VAR_IDS = {"i": 101, "k": 102, "loop.index": 103, "x": 111, "y": 112, "lazy": 113}
 TEXT_ALPHABET = "abcdefgXYZ0123456789[]()<>.,:;-_=+ "
 
 
@@ -233,10 +233,10 @@ def enc_template(t, out):
         enc_items(body, out)
 
 
-def model_line(h, fuel=64):
+def model_line(h, fuel=64, extra=None):
     by = {t["name"]: t for t in h["templates"]}
     out = [str(fuel)]
-    mv = [(VAR_IDS[k], str(v)) for k, v in h["data"].items() if k in VAR_IDS]
+    mv = [(VAR_IDS[k], str(v)) for k, v in dict(h["data"], **(extra or {})).items() if k in VAR_IDS]
     out.append(str(len(mv)))
     for k, v in mv:
         out += [str(k), enc_str(v)]
@@ -247,11 +247,47 @@ def model_line(h, fuel=64):
 
 
 # ---------------------------------------------------------------- the real engine
-ENV_KINDS = ["plain", "async", "autoescape", "sandbox", "async+autoescape"]
+ENV_KINDS = ["plain", "async", "autoescape", "sandbox", "async+autoescape", "custom"]
+# what the custom context class of the "custom" environment resolves by itself (for the model: one more variable)
+CUSTOM_EXTRA = {"lazy": "LZ"}
+
+
+def custom_environment_class(jinja2):
+    """an environment with every documented extension point overridden in a behaviour-preserving way, except that its
+    context class resolves one more name by itself: context_class, template_class, code_generator_class, concat,
+    undefined, finalize"""
+    from jinja2.compiler import CodeGenerator
+    from jinja2.runtime import Context, Undefined
+
+    class LazyContext(Context):
+        def resolve_or_missing(self, key):
+            if key == "lazy":
+                return "LZ"
+            return super().resolve_or_missing(key)
+
+    class MyTemplate(jinja2.Template):
+        pass
+
+    class MyGenerator(CodeGenerator):
+        pass
+
+    class MyUndefined(Undefined):
+        pass
+
+    class CustomEnvironment(jinja2.Environment):
+        context_class = LazyContext
+        template_class = MyTemplate
+        code_generator_class = MyGenerator
+        concat = staticmethod(lambda seq: "".join(list(seq)))
+    return CustomEnvironment, MyUndefined
 
 
 def make_env(jinja2, loader, kind="plain", **kw):
-    """the configuration axes C04's text does not exclude: sync / async rendering, autoescaping, sandbox"""
+    """the configuration axes C04's text does not exclude: sync / async rendering, autoescaping, sandbox, overridden
+    extension points"""
+    if kind == "custom":
+        cls, undef = custom_environment_class(jinja2)
+        return cls(loader=loader, undefined=undef, finalize=lambda v: v, **kw)
     if kind == "sandbox":
         from jinja2.sandbox import SandboxedEnvironment
         return SandboxedEnvironment(loader=loader, **kw)
@@ -400,7 +436,7 @@ class HGen:
             elif k < 0.30:
                 items.append(self.stmt())
             elif k < 0.40:
-                items.append(("v", r.choice(["i", "k", "x", "y", "loop.index", "loop.index"])))
+                items.append(("v", r.choice(["i", "k", "x", "y", "loop.index", "loop.index", "lazy"])))
             elif k < 0.62:
                 items.append(("u", r.choice([0, 0, 0, 0, 1, 1, 2])))
             elif k < 0.72:
